@@ -6,7 +6,8 @@ proof:          lean/OdfModel/Props/C17.lean (roundtrip, roundtrip_append, no_ra
                 lean/OdfModel/Props/C17SaveLoad.lean (roundtrip_through_canon, roundtrip_saveload: the inserted nodes written
                 by the writer model and read back by the reference parser of the XML layer still extract to the string),
                 lean/OdfModel/Props/C17Merge.lean (mergeText_enc / saveload_identity: no two inserted text nodes are adjacent, so
-                the merge a save/load cycle performs returns the inserted list itself; enc_injective, enc_injective_after_merge)
+                the merge a save/load cycle performs returns the inserted list itself; enc_injective, enc_injective_after_merge;
+                mergeText_idem, roundtrip_after_merges: any number of cycles - the harness runs two)
 correspondence: node list appended by odf.teletype.addTextToElement  vs  `enc [] s` (drv_teletype)
 oracle:         extractText(addTextToElement(s)) == s directly, appended to a pre-filled element,
                 and after save()+load(); node predicate (no TAB/LF/double blank in text nodes)
@@ -402,6 +403,28 @@ def run(chk, replay=None):
             chk.fail('roundtrip-saveload', {'s': [enc_str(s) for s, _ in batch[:3]]}, 'paragraph count %d != %d' % (len(ps), len(batch)))
             continue
         model = drv.batch('enc ' + enc_str(s) for s, _ in batch)
+        # a second cycle (C17Merge.mergeText_idem / roundtrip_after_merges): the loaded document saved and loaded again
+        ps2 = None
+        try:
+            buf2 = io.BytesIO(); d2.save(buf2); buf2.seek(0)
+            ps2 = load(buf2).getElementsByType(P)
+        except Exception as e:
+            chk.fail('roundtrip-saveload', {'s': [enc_str(s) for s, _ in batch[:3]], 'mode': 'saveload2'}, 'second save+load raises %s' % short(repr(e)))
+        if ps2 is not None and len(ps2) == len(batch):
+            for (s, _), p1, p2 in zip(batch, ps, ps2):
+                if teletype.extractText(p1) != s:
+                    continue
+                chk.count('saveload_twice')
+                g2 = teletype.extractText(p2)
+                if g2 != s:
+                    chk.fail('roundtrip-saveload', {'s': enc_str(s), 'mode': 'saveload2'}, 'after two save+load cycles extractText gave %r for %r' % (short(g2), short(s)))
+                else:
+                    a, b = ' '.join(dump_nodes(p1.childNodes)), ' '.join(dump_nodes(p2.childNodes))
+                    chk.corr()
+                    if a != b:
+                        chk.corr_diff({'s': enc_str(s), 'mode': 'saveload2'}, b, a, 'children after two save+load cycles vs after one (mergeText_idem)')
+        elif ps2 is not None:
+            chk.fail('roundtrip-saveload', {'s': [enc_str(s) for s, _ in batch[:3]], 'mode': 'saveload2'}, 'paragraph count %d != %d after the second cycle' % (len(ps2), len(batch)))
         for ((s, _), p), ans in zip(zip(batch, ps), model):
             chk.count('saveload')
             got = teletype.extractText(p)
